@@ -55,8 +55,9 @@ func (rt *runtime) calculateBinaryExpression(operator token.Token, left Value, r
 	switch operator {
 	// Additive
 	case token.PLUS:
-		leftValue = toPrimitiveValue(leftValue)
+		// 11.6.1: GetValue of both operands comes before ToPrimitive of either.
 		rightValue := right.resolve()
+		leftValue = toPrimitiveValue(leftValue)
 		rightValue = toPrimitiveValue(rightValue)
 
 		if leftValue.IsString() || rightValue.IsString() {
